@@ -26,35 +26,32 @@ import (
 // ConcurrencySafe is the allow-list: "<package path>.<type name>" or "<package path>.*" ->
 // why values of that type may be used by several goroutines at once without synchronisation.
 var ConcurrencySafe = map[string]string{
-	"sync.*":                         "synchronisation primitives; in instrumented code they are the vsync shims whose operations are scheduling points with their own happens-before semantics",
-	"sync/atomic.*":                  "atomic values; shimmed (vatomic) in instrumented code",
-	"context.*":                      "package doc: \"Contexts are safe for simultaneous use by multiple goroutines\"",
-	"crypto/rand.*":                  "crypto/rand.Reader: \"a global, shared instance of a cryptographically secure random number generator\"; Read is safe for concurrent use",
-	"regexp.Regexp":                  "type doc: \"A Regexp is safe for concurrent use by multiple goroutines, except for configuration methods, such as Longest\"",
-	"log.Logger":                     "type doc: \"A Logger can be used simultaneously from multiple goroutines; it guarantees to serialize access to the Writer\"",
-	"log/slog.Logger":                "handlers are required to be safe for concurrent use; a Logger is an immutable handle on one",
-	"net/http.Client":                "type doc: \"Clients are safe for concurrent use by multiple goroutines\"",
-	"net/http.Transport":             "type doc: \"Transports ... are safe for concurrent use by multiple goroutines\"",
-	"net/http.ServeMux":              "guards its routing table with its own mutex; Handle and ServeHTTP may be called concurrently",
-	"time.Location":                  "immutable after loading; all methods are read-only",
-	"os.File":                        "type doc: \"The methods of File are safe for concurrent use\" (os.Stdout, os.Stderr)",
-	"io.discard":                     "io.Discard: stateless, \"all Write calls succeed without doing anything\"",
-	"errors.*":                       "error values made by errors.New / errors.Join are immutable",
-	"fmt.wrapError":                  "error value made by fmt.Errorf: immutable",
-	"fmt.wrapErrors":                 "error value made by fmt.Errorf: immutable",
-	"reflect.rtype":                  "reflect.Type values are immutable descriptors; package doc: comparable and usable from any goroutine",
-	"unicode.RangeTable":             "read-only character tables (unicode.Letter, ...)",
-	"unicode.SpecialCase":            "read-only case mapping tables",
-	"encoding/base64.Encoding":       "immutable after NewEncoding; Encode/Decode methods do not modify it (base64.StdEncoding, RawURLEncoding are shared by design)",
-	"encoding/base32.Encoding":       "immutable after NewEncoding, as base64.Encoding",
-	"encoding/binary.*":              "binary.BigEndian / LittleEndian: stateless byte order values",
-	"text/template.Template":         "type doc (Execute): \"A template may be executed safely in parallel\"",
-	"html/template.Template":         "type doc (Execute): \"A template may be executed safely in parallel\"",
-	"go/token.FileSet":               "type doc: \"The methods of FileSet are synchronized; multiple goroutines may invoke them concurrently\"",
-	"net.Resolver":                   "type doc: a Resolver may be used by multiple goroutines simultaneously",
-	"google.golang.org/grpc/codes.*": "plain numeric codes",
-	"google.golang.org/grpc/internal/status.*":   "status values are immutable once created",
-	"google.golang.org/protobuf/internal/impl.*": "generated message descriptors: initialised once (sync.Once), read-only afterwards",
+	"sync.*":                   "synchronisation primitives; in instrumented code they are the vsync shims whose operations are scheduling points with their own happens-before semantics",
+	"sync/atomic.*":            "atomic values; shimmed (vatomic) in instrumented code",
+	"context.*":                "package doc: \"Contexts are safe for simultaneous use by multiple goroutines\"",
+	"crypto/rand.*":            "crypto/rand.Reader: \"a global, shared instance of a cryptographically secure random number generator\"; Read is safe for concurrent use",
+	"regexp.Regexp":            "type doc: \"A Regexp is safe for concurrent use by multiple goroutines, except for configuration methods, such as Longest\"",
+	"log.Logger":               "type doc: \"A Logger can be used simultaneously from multiple goroutines; it guarantees to serialize access to the Writer\"",
+	"log/slog.Logger":          "handlers are required to be safe for concurrent use; a Logger is an immutable handle on one",
+	"net/http.Client":          "type doc: \"Clients are safe for concurrent use by multiple goroutines\"",
+	"net/http.Transport":       "type doc: \"Transports ... are safe for concurrent use by multiple goroutines\"",
+	"net/http.ServeMux":        "guards its routing table with its own mutex; Handle and ServeHTTP may be called concurrently",
+	"time.Location":            "immutable after loading; all methods are read-only",
+	"os.File":                  "type doc: \"The methods of File are safe for concurrent use\" (os.Stdout, os.Stderr)",
+	"io.discard":               "io.Discard: stateless, \"all Write calls succeed without doing anything\"",
+	"errors.*":                 "error values made by errors.New / errors.Join are immutable",
+	"fmt.wrapError":            "error value made by fmt.Errorf: immutable",
+	"fmt.wrapErrors":           "error value made by fmt.Errorf: immutable",
+	"reflect.rtype":            "reflect.Type values are immutable descriptors; package doc: comparable and usable from any goroutine",
+	"unicode.RangeTable":       "read-only character tables (unicode.Letter, ...)",
+	"unicode.SpecialCase":      "read-only case mapping tables",
+	"encoding/base64.Encoding": "immutable after NewEncoding; Encode/Decode methods do not modify it (base64.StdEncoding, RawURLEncoding are shared by design)",
+	"encoding/base32.Encoding": "immutable after NewEncoding, as base64.Encoding",
+	"encoding/binary.*":        "binary.BigEndian / LittleEndian: stateless byte order values",
+	"text/template.Template":   "type doc (Execute): \"A template may be executed safely in parallel\"",
+	"html/template.Template":   "type doc (Execute): \"A template may be executed safely in parallel\"",
+	"go/token.FileSet":         "type doc: \"The methods of FileSet are synchronized; multiple goroutines may invoke them concurrently\"",
+	"net.Resolver":             "type doc: a Resolver may be used by multiple goroutines simultaneously",
 }
 
 // InternalPkg says whether a package path belongs to the instrumented code (goa itself, the
